@@ -46,8 +46,14 @@ def gen_case(rng, thorough, timed):
                 ef = {"expires": now + life}      # a rule's expires must be numeric (RuleFromMap); strings are covered by the malformed stream
             rule.update(ef)
             ops.append({"op": "addRule", "id": i, "rule": rule})
+    get_only = timed and rng.random() < 0.3     # after the instant the items are looked at by id only: each look purges what it finds expired
     def observe():
         o = []
+        if get_only:
+            for i in ids: o.append({"op": "getFact", "id": i})
+            o.append({"op": "size"})
+            o.append({"op": "snapshot"})
+            return o
         for i in rng.sample(ids, 3):
             o.append({"op": "getFact", "id": i})
         o.append({"op": "search", "pattern": {"k": "?k"}, "inherited": False})
@@ -64,7 +70,7 @@ def gen_case(rng, thorough, timed):
         ops.insert(rng.randint(0, len(ids)), {"op": "addFact", "id": "hb", "fact": dict(hb), "keepAs": "hb"})
         ops.append({"op": "sleep", "ms": 4100})
         ops.append({"op": "addFact", "id": "hb", "fact": dict(hb), "reuse": "hb"})
-        if rng.random() < 0.5: ops.append({"op": "reload"})
+        if rng.random() < 0.5 and not get_only: ops.append({"op": "reload"})
         ops += observe()
         ops += observe()     # once unobservable, always unobservable; purged from storage
     for o in ops: o["loc"] = "a"
@@ -191,6 +197,32 @@ def main():
         if late:
             ck.violation("%s (%s state) started %.0f ms before the expiry instant of %s, waited for the state lock and answered %.0f ms after the instant, still returning it" % (
                 c["read"], c["state"], -o["start_ms"], late, o["end_ms"]), {"case": c, "impl": o}, tag="lockwait")
+    # a ttl given as a duration string counts from the moment of the write, fractions included: expires = floor(now + d).
+    # (direct check on the real code with the harness's millisecond clock readings around the call; the integer-second model is not asked)
+    sub = []
+    for st in ("indexed", "linear"):
+        for d_ms in (900, 1500, 1900, 2100, 2999):
+            for pause in (0, 150, 350, 550, 750, 950):
+                sub.append({"kind": "loc", "state": st, "locs": ["a"], "_d": d_ms, "ops": [
+                    {"op": "sleep", "ms": pause, "loc": "a"},
+                    {"op": "addFact", "loc": "a", "id": "s", "fact": {"k": 1, "ttl": "%dms" % d_ms}},
+                    {"op": "addRule", "loc": "a", "id": "sr", "rule": {"when": {"pattern": {"go": "?x"}}, "action": A, "ttl": "%.1fs" % (d_ms / 1000.0) if d_ms % 100 == 0 else "%dms" % d_ms}},
+                    {"op": "snapshot", "loc": "a"}]})
+    for c, o in zip(sub, run_cases(lr.drv, [{k_: v_ for k_, v_ in c.items() if k_ != "_d"} for c in sub], jobs=32, per_chunk=2)):
+        outs = o.get("outs") or []
+        ck.count({"subsecond_ttl": c["_d"], "s": c["state"], "pause": c["ops"][0]["ms"]})
+        lr.stats["subsecond_ttl_cases"] += 1
+        if len(outs) < 4 or not isinstance(outs[3].get("ok"), dict): continue
+        facts = outs[3]["ok"].get("facts", {})
+        for k, fid in ((1, "s"), (2, "sr")):
+            r = outs[k]
+            if "t0_ms" not in r or "ok" not in r: continue
+            lo, hi = int((r["t0_ms"] + c["_d"]) // 1000), int((r["t1_ms"] + c["_d"]) // 1000)
+            exp = (facts.get(fid) or {}).get("expires")
+            if not isinstance(exp, (int, float)) or not (lo <= exp <= hi):
+                ck.violation("ttl %s written between %.3f s and %.3f s: stored expires=%s, the instant floor(now + ttl) lies in [%d, %d] (%s state)" % (
+                    c["ops"][k].get("fact", c["ops"][k].get("rule"))["ttl"], r["t0_ms"] / 1000.0, r["t1_ms"] / 1000.0, exp, lo, hi, c["state"]),
+                    {"case": {k_: v_ for k_, v_ in c.items() if k_ != "_d"}, "impl": outs[1:4]}, tag="subsecond")
     for c in cases[:2]:
         ck.sample({"state": c["state"], "ops": c["ops"][:7]})
     lr.finish_cov("per history 3 facts and 2 rules written with an expiry in one of the encodings (numeric seconds, RFC3339, ttl number, ttl duration string; already expired, "
